@@ -69,14 +69,15 @@ theorem logical_all (SL SP : DRing K) (T : FnTable SL) (m : String) (j : Jac) (F
     simp only [logical] at h; injection h with h; subst h
     exact ⟨rfl, by simp [NonDeg], fun x y => by simp [den, R.cst_eq]⟩
   | sym s =>
-    intro _ _ r h
+    intro hf _ r h
+    simp only [Frag, Bool.not_eq_true'] at hf
     simp only [logical] at h
     cases hp : physIdx s with
     | none =>
       simp only [hp] at h; injection h with h; subst h
       refine ⟨rfl, by simp [NonDeg], fun x y => ?_⟩
       simp only [den]
-      exact (R.sym_other s (fun i hi => by rw [hp] at hi; cases hi)).symm
+      exact (R.sym_other s (fun i hi => by rw [hp] at hi; cases hi) hf).symm
     | some i =>
       simp only [hp] at h
       split at h
@@ -91,7 +92,7 @@ theorem logical_all (SL SP : DRing K) (T : FnTable SL) (m : String) (j : Jac) (F
         injection h with h; subst h
         refine ⟨rfl, by simp [NonDeg], fun x y => ?_⟩
         simp only [den]
-        refine (R.sym_other s (fun i' hi' => ?_)).symm
+        refine (R.sym_other s (fun i' hi' => ?_) hf).symm
         rw [hp] at hi'; injection hi' with hi'; subst hi'
         exact Nat.le_of_not_lt hi
   | sf s k =>
